@@ -24,6 +24,24 @@ PROPS = {
                         "no re-entrant as_dict/as_obj call from inside a serialization hook",
                         "single-threaded use"],
     },
+    "C03": {
+        "areas": ["contracts.node_registry"],
+        "rt": "rt.c03",
+        "level": "proof",
+        "technique": "contracts over a ghost registry map (z3 arrays): each operation's postcondition states the whole new registry, loop invariant over the dfs stream for detach, exceptional postcondition for replace; bounded native histories with a shadow model for construction / deserialization / GC",
+        "level_text": "Proved for all registry states and all nodes: get/get_any lookup rules, _unregister/detach_self/detach remove exactly the node itself (all depths for detach) and nothing else, replace leaves the registry exactly as it was when it raises and otherwise swaps exactly self for the new node, _get_next_unique_id returns a free id of the form id or id_k. Because every postcondition fixes the entire map, the history quantifier follows by induction over operations. Construction (__post_init__), deserialization and garbage collection are covered by bounded native histories only.",
+        "level_note": "Assumed: WeakValueDictionary behaves as a dict over live objects (GC not modelled; 'not kept alive by the library' is outside any contract); dataclasses.replace = a construction whose failure leaves the registry unchanged; ASTNode.dfs contract proved under C05. Bounded only: __post_init__ id assignment, _deserialize, GC.",
+        "assumptions": ["garbage collection / weak references are not modelled", "a rejected construction does not register the half-built node (library __post_init__ registers last)"],
+    },
+    "C05": {
+        "areas": ["contracts.node_traversal"],
+        "rt": "rt.c05",
+        "level": "proof",
+        "technique": "loop invariants over ghost done/rest sequences relating the real iterative dfs / bfs / gather to recursive spec functions (pre-order, post-order, queue recursion); rule instantiation by the generator; induction lemmas (snoc laws, reverse, level order) as base+step VCs; z3 sequences",
+        "level_text": "For all trees (any depth and width), all prune/filter callbacks: dfs top-down == recursive pre-order, dfs bottom-up == recursive post-order, bfs == queue recursion which a lemma shows to be the level-by-level order, gather == pre-order with the verified class-test closure as filter; position info (parent, field, index) is part of the spec terms. Relative to the accessor contract get_child_nodes_with_field == kids(self) (C12).",
+        "level_note": "Assumed: callbacks are pure and total; generators modelled by their whole output sequence; kids(n) finite and well-founded (rank). The lemma 'pre-order with filter g and h == filter g of pre-order with h' is not machine-checked. Bounded stand-in cross-checks the same statement natively on all trees <= 4 nodes.",
+        "assumptions": ["callbacks pure/total", "nodes are immutable during a traversal (C10)", "list / deque / reverse semantics as encoded (cross-checked natively by rt.c05)"],
+    },
 }
 
 NOT_APPLICABLE: dict[str, str] = {}
